@@ -132,6 +132,16 @@ func Run(c *vh.Ctx) {
 			mu, kinds := lexh.Mutate(c.Rand, base)
 			add("corpus-mutant:"+kinds, vh.Pick(c.Rand, []string{"s", "t"}), mu, false)
 		}
+		// complete small space: all strings of length ≤ 2 over a boundary alphabet (both modes)
+		alpha := []string{"$", "\\", "\"", "'", "`", "/", "*", "<", "?", ">", "\n", "\r", " ", "a", "1", "-", ".", "e", "b", "#", "!", "{", "}", "@", "\xe3", "\x80", "\xff", "é", "_", "=", ";", "(", ")", "[", "]", ",", ":"}
+		for _, a := range alpha {
+			add("alpha1", "s", a, true)
+			add("alpha1", "t", "<?php "+a, false)
+			for _, b := range alpha {
+				add("alpha2", "s", a+b, true)
+				add("alpha2", "t", "<?php "+a+b, false)
+			}
+		}
 		for _, k := range pastCrashers {
 			add("past-crasher", k[0], k[1], k[2] == "run")
 		}
